@@ -24,7 +24,7 @@ RULE = ('same case streams as C01 plus every permutation of up to 3 distinct use
         'non-trivial = has nested items or non-default fields')
 ASSUMPTIONS = ['refcodec is a faithful transcription of PS3.8 9.3 / Annex D (Appendix B of DESIGN.md)',
                'AE titles compared without insignificant leading/trailing spaces and NULs']
-REQUIRED = ['oracle.lib-bytes-parsed', 'oracle.total-length', 'oracle.ref-bytes-decoded',
+REQUIRED = ['oracle.reencode-after-growth', 'oracle.lib-bytes-parsed', 'oracle.total-length', 'oracle.ref-bytes-decoded',
             'oracle.nested-length']
 
 N_RANDOM = {'quick': 4000, 'thorough': 1500000}
@@ -110,6 +110,23 @@ def check_case(res, desc, tree):
                                   'encoded %s read by the standard layout differs: %s' % (
                                       type(x).__name__, diff), desc)
             nested_lengths(res, desc, x)
+            grown = grow(tree, x)
+            if grown is not None:
+                # the same object encoded again after it was extended (an application hook adds a
+                # sub-item to the user information it was given, a sender adds a PDV): every length
+                # field has to follow
+                res.count('oracle.reencode-after-growth')
+                try:
+                    got2 = libmap.normalise(refcodec.parse_pdu(x.encode()))
+                    diff = libmap.tree_diff(libmap.normalise(grown), got2)
+                except refcodec.RefError as exc:
+                    diff = 'reference parser rejects the bytes: %s' % exc
+                except Exception as exc:
+                    diff = 'encode() raised %r' % (exc,)
+                if diff:
+                    res.violation('stale-lengths-after-growth', 'C02.lib-bytes',
+                                  '%s extended after its first encode(): %s' % (type(x).__name__, diff), desc)
+                nested_lengths(res, desc, x)
     # ---- direction 2: reference encodes, library decodes
     try:
         rb = refcodec.build_pdu(tree)
@@ -130,6 +147,27 @@ def check_case(res, desc, tree):
         res.violation('ref-bytes-wrong-fields', 'C02.ref-bytes',
                       '%s.decode(reference bytes) gives other field values: %s' % (
                           cls.__name__, diff), desc)
+
+
+def grow(tree, x):
+    """Extend the library object in place (and return the tree it now corresponds to)."""
+    import copy
+    t = tree['type']
+    if t in (1, 2) and tree['items'] and tree['items'][-1]['type'] == 0x50:
+        sub = {'type': 0x55, 'rsv': 0, 'name': b'ADDED-LATER'}
+        x.variable_items[-1].user_data.append(libmap.sub_to_lib(sub))
+        tree2 = copy.deepcopy(tree)
+        tree2['items'][-1]['subs'].append(sub)
+        return tree2
+    if t == 4:
+        pdv = {'ctx': 77, 'data': b'\x02' + b'grown' * 3}
+        if not x.data_value_items:
+            return None
+        x.data_value_items.append(type(x.data_value_items[0])(pdv['ctx'], pdv['data']))
+        tree2 = copy.deepcopy(tree)
+        tree2['pdvs'].append(pdv)
+        return tree2
+    return None
 
 
 def nested_lengths(res, desc, x):
